@@ -32,7 +32,7 @@ var run *h.Run
 var allOps = []string{"Login", "NewProxy", "Ping", "NewWorkConn", "NewUserConn", "CloseProxy"}
 
 // outcomes a stub can be scripted with
-var outcomes = []string{"accept", "accept", "accept", "modify", "modify", "reject", "http500", "http404", "reset", "badjson", "empty200", "reject-with-content"}
+var outcomes = []string{"accept", "accept", "accept", "accept", "modify", "modify", "modify", "reject", "http500", "http404", "reset", "badjson", "empty200", "reject-with-content", "accept-then-garbage", "accept-then-second-object", "accept-truncated"}
 
 func refuses(o string) bool { return o != "accept" && o != "modify" }
 
@@ -75,7 +75,7 @@ func main() {
 	}
 	go http.Serve(stubLn, http.HandlerFunc(stub))
 
-	n := run.N(400, 5000)
+	n := run.N(300, 4000)
 	run.Parallel(n, 32, oneCase)
 	run.Finish(50)
 }
@@ -129,6 +129,26 @@ func stub(w http.ResponseWriter, r *http.Request) {
 		_, _ = w.Write([]byte("{\"reject\": fals"))
 	case "empty200":
 		w.WriteHeader(200)
+	case "accept-then-garbage": // a complete accept object followed by bytes that make the body unparsable
+		w.Header().Set("Content-Type", "application/json")
+		_, _ = w.Write([]byte("{\"reject\":false,\"reject_reason\":\"\",\"unchange\":true}\n<html><body>502 Bad Gateway</body></html>"))
+	case "accept-then-second-object":
+		w.Header().Set("Content-Type", "application/json")
+		_, _ = w.Write([]byte("{\"reject\":false,\"unchange\":true}{\"reject\":true,\"reject_reason\":\"denied\"}"))
+	case "accept-truncated": // announces more bytes than it sends, then the connection is reset: the answer never arrived completely
+		if hj, ok := w.(http.Hijacker); ok {
+			c, bw, err := hj.Hijack()
+			if err == nil {
+				body := "{\"reject\":false,\"reject_reason\":\"\",\"unchange\":true}"
+				fmt.Fprintf(bw, "HTTP/1.1 200 OK\r\nContent-Type: application/json\r\nContent-Length: %d\r\n\r\n%s", len(body)+64, body)
+				_ = bw.Flush()
+				time.Sleep(20 * time.Millisecond)
+				if tc, ok := c.(*net.TCPConn); ok {
+					_ = tc.SetLinger(0)
+				}
+				c.Close()
+			}
+		}
 	case "reset":
 		if hj, ok := w.(http.Hijacker); ok {
 			c, _, err := hj.Hijack()
@@ -633,6 +653,18 @@ func oneCase(c *h.Case) {
 		}
 		if r2 != nil && r2.Error == "" {
 			stopped = append(stopped, r2.ProxyName)
+			// several proxies alive at session end: each must get its own notification
+			for x := 0; x < 1+rng.Intn(4); x++ {
+				rx, err := p.NewProxy(&msg.NewProxy{ProxyName: fmt.Sprintf("c%d.extra%d", c.Idx, x), ProxyType: "stcp", Sk: "k"}, 10*time.Second)
+				if err != nil {
+					if m, werr := p.WaitMsg(5*time.Second, func(y msg.Message) bool { _, ok := y.(*msg.NewProxyResp); return ok }); werr == nil {
+						rx = m.(*msg.NewProxyResp)
+					}
+				}
+				if rx != nil && rx.Error == "" {
+					stopped = append(stopped, rx.ProxyName)
+				}
+			}
 		} else if r2 != nil && proxyUp {
 			// the same script accepted the first registration; the second differs only in name
 			c.Violation("registration-after-close-refused", "second registration on the freed port refused: %s", r2.Error)
